@@ -38,3 +38,6 @@ func Exits(f func()) bool                           { panic("symbolic only") }
 func Freeze(label string, xs ...any)                { panic("symbolic only") }
 func Thaw()                                         { panic("symbolic only") }
 func DeepEq(a, b any) bool                          { panic("symbolic only") }
+func Snapshot(x any) int                            { panic("symbolic only") }
+func SameAsSnapshot(h int, x any) bool              { panic("symbolic only") }
+func Havoc(x any)                                   { panic("symbolic only") }
